@@ -41,7 +41,9 @@ class NetStream(Stream):
                 cand = [(u, f) for u in used for f in free if f[0] != u[0]]
                 if cand:
                     u, f = rng.choice(cand)
-                    d["conns"].append([list(u), list(f)] if rng.random() < 0.5 else [list(f), list(u)])
+                    # the free pin comes first: in the constructor style the links are a dict keyed by their first end,
+                    # and a repeated KEY would make the harness itself drop a link before the library sees it
+                    d["conns"].append([list(f), list(u)])
                     d["expo"] = [x for x in d["expo"] if (x[0], x[1]) != f]
                     d["duppin"] = True
                     if i in (7, 8):
